@@ -696,6 +696,8 @@ def decision_paths(fn, limit=400, with_calls=False, with_env=False):
                     e = ("overflowflag",)
                 elif e[0] == "agg" and nm in e[2]:
                     e = e[2][nm]
+                elif e[0] == "closure" and nm in e[2]:
+                    e = e[2][nm]
                 elif e[0] == "upd" and nm in e[2]:
                     e = e[2][nm]
                 elif e[0] == "upd":
@@ -706,6 +708,8 @@ def decision_paths(fn, limit=400, with_calls=False, with_env=False):
                     e = ("field", e, nm, el.get("of"))
             elif isinstance(el, dict) and "downcast" in el:
                 e = ("downcast", e, el["variant"] or el["downcast"])
+            elif isinstance(el, dict) and "index" in el:
+                e = ("index", e, ev_place({"l": el["index"], "p": []}, env))
             else:
                 e = ("proj", e, str(el))
         return e
